@@ -202,6 +202,10 @@ _REORDER_RULES = {
             parallel_list_attr="HorizGlyphConstruction",
         ),
     ],
+    # VARC
+    (ot.VARC, None): [
+        ReorderCoverage(parallel_list_attr="VarCompositeGlyphs.VarCompositeGlyph")
+    ],
 }
 
 
@@ -284,7 +288,7 @@ def reorderGlyphs(font: ttLib.TTFont, new_glyph_order: List[str]):
 
     font.setGlyphOrder(new_glyph_order)
 
-    coverage_containers = {"GDEF", "GPOS", "GSUB", "MATH"}
+    coverage_containers = {"GDEF", "GPOS", "GSUB", "MATH", "VARC"}
     for tag in coverage_containers:
         if tag in font.keys():
             for path in _bfs_base_table(font[tag].table, f'font["{tag}"]'):
